@@ -120,7 +120,7 @@ int main(int argc, char** argv)
     else return 2;
     std::vector<int> a;
     for (int i = 3; i < argc; i++) a.push_back(atoi(argv[i]));
-    a.resize(16, 0);
+    a.resize(32, 0);
     typedef void (*entry_t)(const int*);
     entry_t e = (entry_t)dlsym(RTLD_DEFAULT, argv[1]);
     if (!e) { fprintf(stderr, "no entry %s\n", argv[1]); return 2; }
